@@ -442,7 +442,14 @@ def case(ctx, rng, idx):
             if type(new) is not T:
                 ctx.violation("%s:type-changed" % op, "%s returned %s" % (desc, type(new).__name__), w)
                 return
-            if ref.from_raw(kind, dict(new)) != ref.from_raw(kind, snap) and op == "copy":
+            # (`m / 1` is a float division: integer coefficients beyond 2**53 come back rounded -- Python's arithmetic, not the
+            # library's; that copy is then compared as floats)
+            inexact_ = op == "copy" and desc[-1] == "over-one" and any(isinstance(v, int) and abs(v) > 2 ** 53 for v in snap.values())
+            if inexact_:
+                same_ = set(new) == set(snap) and all(float(new[k_]) == float(snap[k_]) for k_ in snap)
+            else:
+                same_ = ref.from_raw(kind, dict(new)) == ref.from_raw(kind, snap)
+            if not same_ and op == "copy":
                 ctx.violation("copy:terms-differ", "copy has different terms", w)
                 return
             if pc and op == "copy" and (new.num_ancillas != m.num_ancillas or new.constraints != m.constraints):
